@@ -5385,6 +5385,8 @@ impl<'a, 'graph> Builder<'a, 'graph> {
       None => ModuleGraph::new(self.graph.graph_kind),
     };
     self.state = PendingState::default();
+    // the restart may have been requested while visiting a dynamic branch
+    self.in_dynamic_branch = self.was_dynamic_root;
     self.fill_pass_mode = FillPassMode::CacheBusting;
 
     // boxed due to async recursion
